@@ -262,3 +262,12 @@ func wrapFSM(f *RecFSM, kind int) raft.FSM {
 	}
 	return fsmPlain{f}
 }
+
+// NewRecFSM builds a recording FSM for incarnation ep of d.
+func NewRecFSM(d *Disk, ep int) *RecFSM { return &RecFSM{d: d, ep: ep} }
+
+// WrapFSM returns the raft.FSM view of f for the given variant (see wrapFSM).
+func WrapFSM(f *RecFSM, kind int) raft.FSM { return wrapFSM(f, kind) }
+
+// HandleEpoch returns the epoch a handle was opened in.
+func (h *Handle) Epoch() int { return h.ep }
